@@ -244,3 +244,5 @@ def run(chk, F):
     chk.run_rule("C13.no-silent-drop", "a record taken out of the index is queued with an event or returned to the caller", 5, no_silent_drop, F)
     chk.run_rule("C13.last-handle", "the last-drop hand-off of a disk-only entry is decided by the value the atomic decrement returned (exactly one dropper sees zero)", 2, C18.drop_last_handle, F)
     chk.run_rule("C13.siblings", "the garbage-draining sites agree and run outside the shard lock", 6, siblings, F)
+    from rules import mustcall
+    mustcall.run_for(chk, F, "C13")
